@@ -10,10 +10,15 @@ import (
 // Run is the C20 check: the specifications of spec/filters are model checked
 // and bound to the code side by side.
 func Run(c *vrun.Ctx) error {
+	// several TLC processes run side by side on a shared machine: keep the
+	// JVMs' helper threads few
+	if os.Getenv("_JAVA_OPTIONS") == "" {
+		os.Setenv("_JAVA_OPTIONS", "-XX:ParallelGCThreads=2 -XX:CICompilerCount=2")
+	}
 	all := []struct {
 		name string
 		f    func(*vrun.Ctx) error
-	}{{"pmt", runPmt}, {"gcs", runGcs}, {"bloom", runBloom}, {"basic", runBasic}}
+	}{{"pmt", runPmt}, {"bloom", runBloom}}
 	var subs []func(*vrun.Ctx) error
 	// development aid: VERIF_C20_PARTS=pmt,gcs runs only those parts (the
 	// evidence then says so and does not claim the whole property)
@@ -22,6 +27,10 @@ func Run(c *vrun.Ctx) error {
 		if parts == "" || strings.Contains(","+parts+",", ","+p.name+",") {
 			subs = append(subs, p.f)
 		}
+	}
+	on := func(name string) bool { return parts == "" || strings.Contains(","+parts+",", ","+name+",") }
+	if on("gcs") || on("basic") {
+		subs = append(subs, func(c *vrun.Ctx) error { return runGcsParts(c, on("gcs"), on("basic")) })
 	}
 	if parts != "" {
 		c.Assume("PARTIAL RUN (VERIF_C20_PARTS=" + parts + "): only the named parts were checked")
